@@ -2,6 +2,7 @@ import PymtlVerif.Proofs.Flat
 import PymtlVerif.Proofs.SV
 import PymtlVerif.Proofs.SVStmt
 import PymtlVerif.Proofs.SVMod
+import PymtlVerif.Proofs.SVSigned
 /-!
 # C12 — the Yosys-compatible translation is equivalent, with a faithful flat port map
 
@@ -16,9 +17,19 @@ end with `_`, does not start with a digit: the identifier well-formedness of C13
 show that each condition is necessary).
 
 The expression / statement theorems are those of C03 instantiated at the Yosys backend: constants are inlined as
-literals, `BitsN(e)` is emitted as the operand itself / a zero-extension, loop variables are
-`integer __loopvar__<blk>_<i>`; struct member access by flattened name (`a.b` → `a__b`) is outside `WT` for this
-backend (covered by the correspondence).
+literals, `BitsN(e)` is emitted as the operand itself / a zero-extension; struct member access by flattened name
+(`a.b` → `a__b`) is outside `WT` for this backend (covered by the correspondence).
+
+**Signedness.**  Loop variables are `integer __loopvar__<blk>_<i>` — a SIGNED type — and every use is rendered
+`N'(__loopvar__<blk>_<i>)`; a size cast keeps the signedness of its operand (IEEE 1800-2017 §6.24.1), so an operator
+whose operands are all loop variables (or casts / sums / … of loop variables) is evaluated signed (§11.8.1).  PyMTL
+computes with unsigned `Bits`.  `+ - * & | ^ ~ << >> == !=` and `?:` give the same bits either way at the node's own
+width; `< <= > >=` and `%` do not.  `signSafe .yosys e` (decidable, `Model/VTr.lean`) says that no `< <= > >=` / `%`
+node of `e` has two signed operands; under it the translation is correct (`expr_correct_yosys`,
+`stmt_correct_yosys`), without it it is not (`signed_loopvar_counterexample`: `i < j`, i = 1, j = 5, three bits;
+`signed_loopvar_mod_counterexample`: `i % j`, i = 5, j = 3) — a genuine defect of the backend, recorded as the
+known finding `C12-yosys-signed-loopvar`.  As soon as ONE operand is unsigned (a signal, a sized literal, a
+temporary) the operator is unsigned: the common case.
 -/
 namespace PV.C12
 open PV.SV PV.VTr PV.SVProofs PV.Flat PV.Sched
@@ -61,17 +72,51 @@ theorem port_names_injective (T : PTy) (hw : WFNames T) (t : Tok) (rest : List T
 theorem to_bits_lt {T : PTy} {v : Val} (h : HasTy v T) : toBits T v < 2 ^ T.width :=
   Flat.toBits_lt _ _ h
 
-/-- **Expressions, Yosys backend** (C03's theorem restricted to the plain-Verilog forms) -/
+/-- **Expressions, Yosys backend** (C03's theorem restricted to the plain-Verilog forms), for every expression in
+    which no ordering comparison / remainder has two signed operands -/
 theorem expr_correct_yosys (cb : Bool) (Γ : Env) (C : List (String × Nat)) (σ : Store)
-    (hC : HoldsC σ C) {e : RExpr} (hwt : WT .yosys Γ C e) {v : Nat} (hv : evalPy .yosys Γ σ e = some v) :
+    (hC : HoldsC σ C) {e : RExpr} (hwt : WT .yosys Γ C e) (hs : signSafe .yosys e = true) {v : Nat}
+    (hv : evalPy .yosys Γ σ e = some v) :
     eval cb Γ σ e.width (tr .yosys e) = v ∧ selfWidth Γ (tr .yosys e) = e.width ∧ v < 2 ^ e.width :=
-  SVProofs.expr_correct .yosys cb Γ C σ hC hwt hv
+  SVProofs.expr_correct .yosys cb Γ C σ hC hwt hs hv
+
+/-- … also as an operand: in a context of the node's width and of whatever type `S` (signed only if the node is) the
+    enclosing expression propagates to it -/
+theorem expr_correct_yosys_ctx (cb : Bool) (Γ : Env) (C : List (String × Nat)) (σ : Store)
+    (hC : HoldsC σ C) {e : RExpr} (hwt : WT .yosys Γ C e) (hs : signSafe .yosys e = true) {v : Nat}
+    (hv : evalPy .yosys Γ σ e = some v) (S : Bool) (hS : S = true → signedOf (tr .yosys e) = true) :
+    evalC cb Γ σ e.width S (tr .yosys e) = v :=
+  SVProofs.expr_correct_ctx .yosys cb Γ C σ hC hwt hs hv S hS
 
 /-- **Loop-free statements, Yosys backend** -/
 theorem stmt_correct_yosys (cb : Bool) (Γ : Env) (C : List (String × Nat)) {s : RStmt}
-    (hwt : WTs .yosys Γ C s) {xs xs' : XS} (h : execPy .yosys Γ s xs = some xs') (hC : HoldsC xs.σ C) :
+    (hwt : WTs .yosys Γ C s) (hs : signSafeS .yosys s = true) {xs xs' : XS}
+    (h : execPy .yosys Γ s xs = some xs') (hC : HoldsC xs.σ C) :
     exec cb Γ (trStmt .yosys s) xs = xs' ∧ HoldsC xs'.σ C :=
-  SVProofs.stmt_correct .yosys cb Γ C hwt h hC
+  SVProofs.stmt_correct .yosys cb Γ C hwt hs h hC
+
+/-- **The side condition cannot be dropped** (`i < j`): a well-typed expression that PyMTL evaluates to `v` while
+    the text the Yosys backend emits for it evaluates to something else, under both readings of the size cast:
+    `3'(__loopvar__up_i) < 3'(__loopvar__up_j)` at i = 1, j = 5 is the signed comparison `1 < -3`. -/
+theorem signed_loopvar_counterexample :
+    ∃ (Γ : Env) (σ : Store) (e : RExpr) (v : Nat), WT .yosys Γ [] e ∧ HoldsC σ [] ∧
+      evalPy .yosys Γ σ e = some v ∧ ∀ cb, eval cb Γ σ e.width (tr .yosys e) ≠ v :=
+  ⟨SVProofs.sgΓ, SVProofs.sgσ 1 5, SVProofs.exLt, 1, SVProofs.exLt_wt .yosys, SVProofs.sg_holdsC 1 5,
+    SVProofs.exLt_py .yosys, fun cb => by rw [SVProofs.exLt_yosys cb]; decide⟩
+
+/-- the same for `%`: `3'(i) % 3'(j)` at i = 5, j = 3 is the signed remainder `-3 % 3 = 0`; PyMTL: `5 % 3 = 2` -/
+theorem signed_loopvar_mod_counterexample :
+    ∃ (Γ : Env) (σ : Store) (e : RExpr) (v : Nat), WT .yosys Γ [] e ∧ HoldsC σ [] ∧
+      evalPy .yosys Γ σ e = some v ∧ ∀ cb, eval cb Γ σ e.width (tr .yosys e) ≠ v :=
+  ⟨SVProofs.sgΓ, SVProofs.sgσ 5 3, SVProofs.exMod, 2, SVProofs.exMod_wt .yosys, SVProofs.sg_holdsC 5 3,
+    SVProofs.exMod_py .yosys, fun cb => by rw [SVProofs.exMod_yosys cb]; decide⟩
+
+/-- … and `signSafe` is what excludes them (so the two theorems above do not contradict `expr_correct_yosys`);
+    the SystemVerilog backend (`int unsigned`) translates the same expression correctly -/
+theorem counterexamples_not_signSafe :
+    signSafe .yosys SVProofs.exLt = false ∧ signSafe .yosys SVProofs.exMod = false ∧
+    (∀ cb, eval cb SVProofs.sgΓ (SVProofs.sgσ 1 5) SVProofs.exLt.width (tr .verilog SVProofs.exLt) = 1) :=
+  ⟨SVProofs.exLt_notSafe, SVProofs.exMod_notSafe, SVProofs.exLt_verilog⟩
 
 /-- **Single driver** (as C03) -/
 theorem singleDriver_sound (ws : List (List WR)) (h : singleDriver ws = true) (x : String) (e b : Nat) :
@@ -86,6 +131,27 @@ theorem design_fixpoint_unique {Var Val : Type} {vw : XS → St Var Val} {castB 
     (ht : ∀ p ∈ ps, vw (exec castB Γ p.body t) = vw t) :
     vw t = vw (runProcs castB Γ ps s) :=
   SV.design_fixpoint_unique hrep hwf hsw htopo s t hin ht
+
+/-! ### non-vacuity of the signed fragment: operators on two loop variables that stay correct -/
+
+/-- `i + j`, `i == j`, `i < 3'd5` are well typed and `signSafe` although (some of) their operands are signed -/
+example : WT .yosys SVProofs.sgΓ [] SVProofs.exAdd ∧ signSafe .yosys SVProofs.exAdd = true ∧
+    signedOf (tr .yosys SVProofs.exAdd) = true :=
+  ⟨SVProofs.exAdd_wt .yosys, SVProofs.exAdd_safe, by simp [SVProofs.exAdd, SVProofs.lvI, SVProofs.lvJ, tr, trBin, signedOf]⟩
+example : WT .yosys SVProofs.sgΓ [] SVProofs.exEq ∧ signSafe .yosys SVProofs.exEq = true :=
+  ⟨SVProofs.exEq_wt .yosys, SVProofs.exEq_safe⟩
+example : WT .yosys SVProofs.sgΓ [] SVProofs.exLtLit ∧ signSafe .yosys SVProofs.exLtLit = true :=
+  ⟨SVProofs.exLtLit_wt .yosys, SVProofs.exLtLit_safe⟩
+
+/-- `expr_correct_yosys` at `i + j`, i = 1, j = 5: the signed 3-bit sum has PyMTL's value 6 -/
+example (cb : Bool) : eval cb SVProofs.sgΓ (SVProofs.sgσ 1 5) 3 (tr .yosys SVProofs.exAdd) = 6 :=
+  (expr_correct_yosys cb _ [] _ (SVProofs.sg_holdsC 1 5) (SVProofs.exAdd_wt .yosys) SVProofs.exAdd_safe
+    (v := 6) (by simp [SVProofs.exAdd, SVProofs.lvI, SVProofs.lvJ, evalPy, loopVarName, SVProofs.sgσ, Store.get,
+      Store.set, Store.getL, Store.setL, Store.empty, pyBin, RExpr.width])).1
+
+/-- `s.o @= i + j` is in the fragment of `stmt_correct_yosys` -/
+example : WTs .yosys SVProofs.sgΓ [] SVProofs.exAsg ∧ signSafeS .yosys SVProofs.exAsg = true :=
+  ⟨SVProofs.exAsg_wt .yosys, SVProofs.exAsg_safe⟩
 
 /-! ### non-vacuity: the port `p : Pt { a: Bits4; b: [Bits2]*3; c: Inner { x: Bits3; y: Bits5 } }` -/
 
